@@ -1,4 +1,5 @@
 PROP = dict(
+    coq=["Disk/DiskHarness.vo"],
     legs=[
         dict(driver="disk", quick=6000, thorough=300000, shard=400,
              monitors=["refuse_exact (spec over Q: refused <-> free < floor(tau))", "refuse_monotone"]),
